@@ -342,3 +342,18 @@ def run(rep: Report, prog: Program, tier: str) -> None:
     check_failure_table(rep, prog)
     check_finalize(rep, prog)
     check_success(rep, prog)
+    # the remaining conjuncts of "retry exactly when permitted" are decided by the rules of the
+    # properties that own them; they are re-run here under this property's id
+    from .c10 import budget_shape
+    from .c13 import abort_flow
+    from .c16 import sleep_protocol
+
+    rep.rule("R3.6", "sleep-handler conjunct: a configured handler is consulted for every granted retry; the next attempt starts only after SLEEP (or without a handler) and exactly one sleep; DEFER / ABORT end the run (= C16 R16.1/R16.2)")
+    rep.rule("R3.6b", "DEFER ends the run as SCHEDULED, ABORT as ABORTED")
+    sleep_protocol(rep, "R3.6", "R3.6b", prog)
+    rep.rule("R3.7", "budget conjunct: the budget refuses a token only when the window is full and grants it otherwise (= C10 R10.1)")
+    budget_shape(rep, "R3.7", prog)
+    rep.rule("R3.8", "abort conjunct: an abort poll lies before every attempt and every backoff; after an abort no further work (= C13 R13.1-R13.3)")
+    rep.rule("R3.8b", "poll before backoff")
+    rep.rule("R3.8c", "abort is final")
+    abort_flow(rep, "R3.8", "R3.8b", "R3.8c", prog)
